@@ -56,6 +56,18 @@ def tlc_jobs(ctx, quick):
             if sp in ('rn2', 'discr2', 'power1'):
                 exp('d2-' + sp, sp, 2, 'core', deep='core', xs='tiny')
                 exp('d2b-' + sp, sp, 2, 'core2', deep='core2', xs='tiny')
+    # a LINEAR base functional under every rule at depth 2 and 3 (is_linear redirects f*s into s*f)
+    def explin(name, sp, depth, rules):
+        out = os.path.join(ctx.work, 'exp_%s.ndjson' % name)
+        exports.append(out)
+        jobs.append(('export-' + name, M, X, dict(fu.fm_env(sp, depth, 'lin', rules, deep='lin', xset='tiny', mode='grad',
+                                                            out=out)), 1))
+    explin('lin2-rn2', 'rn2', 2, 'lin')
+    explin('lin3-discr2', 'discr2', 3, 'lin3')
+    if not quick:
+        explin('lin2-discr2', 'discr2', 2, 'lin')
+        explin('lin2-power1', 'power1', 2, 'lin')
+        explin('lin3-rnw2', 'rnw2', 3, 'lin3')
     if quick:
         exp('d2-rn2', 'rn2', 2, 'one', deep='one', xs='tiny')
         exp('d2-discr2', 'discr2', 2, 'two', deep='two', xs='tiny')
@@ -192,6 +204,36 @@ def lipschitz(B, pts, res, stage, sp, f, space_name, cap=12):
                 npairs += 1
 
 
+def linear_flag(B, rec, res, stage, sp, f, space_name, log=True, opaque=False, pts=None):
+    """f.is_linear claims a linear map (and redirects arithmetic, e.g. f*s -> s*f): the values may refute it."""
+    try:
+        flag = bool(B.func.is_linear)
+    except Exception:
+        return
+    if not flag:
+        return
+    xq, yq = (rec['linpts'][0], rec['linpts'][1]) if pts is None else pts
+    x, y = B.el(fu.frv(xq)), B.el(fu.frv(yq))
+    try:
+        v = [float(B.func(t)) for t in (x, y, x + y, 2 * x, 0 * x)]
+    except Exception:
+        return
+    res['counts'].append(([f, space_name, 'is_linear', xq, yq], True))
+    det = {'stage': stage, 'sp': sp, 'f': f, 'kind': 'lin', 'x': xq, 'y': yq,
+           'observed': {'is_linear': True, 'f(x)': v[0], 'f(y)': v[1], 'f(x+y)': v[2], 'f(2x)': v[3], 'f(0)': v[4]}}
+    tol = SLACK * max(1.0, max(abs(t) for t in v))
+    if abs(v[2] - v[0] - v[1]) > tol or abs(v[3] - 2 * v[0]) > tol or abs(v[4]) > tol:
+        res['viol'].append((fu.signature(sp, f, 'is_linear-refuted-by-observed-values'), det))
+    if rec is not None and rec.get('linref'):
+        res['viol'].append((fu.signature(sp, f, 'is_linear-refuted-by-specification'), det))
+    q = [fu.fixq(t) for t in v]
+    if log:
+        fin = all(t is not None for t in q)
+        res['events'].append(({'k': 'lin', 'sp': sp, 'f': f, 'flag': 1, 'x': xq, 'y': yq, 'opaque': 1 if opaque else 0,
+                               'fxq': q[0] or 0, 'fyq': q[1] or 0, 'fxyq': q[2] or 0, 'f2xq': q[3] or 0, 'f0q': q[4] or 0,
+                               'fin': 1 if fin else 0, 'slackq': fu.REL_SLACKQ}, det))
+
+
 class GB(fu.Built):
     def __init__(self, sp, f, variant=0):
         fu.Built.__init__(self, sp, f, variant)
@@ -246,6 +288,7 @@ def replay_program(arg):
                                        'gradient_expected_from_TLC': pt['g'], 'observed': fu.flat(g).tolist()})
         if B.grad is not None:
             lipschitz(B, pts, res, 'replay', sp, f, rec['space'], cap=(4 if quick else 8) if variant == 0 else 0)
+        linear_flag(B, rec, res, 'replay', sp, f, rec['space'], log=variant == 0)
         for _, d in res['viol'][n0:]:
             d['variant'] = variant
     return res
@@ -261,13 +304,14 @@ def driver_programs(quick, rnd):
         N = m * n
         alt = lambda a, b: [a if i % 2 == 0 else b for i in range(N)]
         leaves = [mkf('L1'), mkf('L2'), mkf('L2sq'), mkf('Const', 0, 3), mkf('Const', 0, 0), mkf('Quad', 0, 1, v=[2] * N, u=alt(1, -H)),
-                  mkf('Quad', 0, 1, u=alt(1, -H))]
+                  mkf('Quad', 0, 1, u=alt(1, -H)), mkf('Quad', 0, 0, u=alt(1, -H)), mkf('Quad', 0, 0, u=alt(2, 3))]
         if kind != 'pspace':
-            leaves += [mkf('Huber', (1, 2)), mkf('Huber', 2), mkf('KL', v=alt(1, 2)), mkf('KLcc', v=alt(1, 2))]
+            leaves += [mkf('Huber', (1, 2)), mkf('Huber', 2), mkf('KL', v=alt(1, 2)), mkf('KLcc', v=alt(1, 2)),
+                       mkf('KL'), mkf('KLcc')]
         if m == 1:
             leaves += [mkf('Quad', 0, 0, v=alt(1, H))]
         if kind == 'power':
-            leaves += [mkf('GroupL1')]
+            leaves += [mkf('GroupL1'), mkf('GroupL1', 1)]
         if kind == 'pspace':
             leaves = [mkf('SepSum', args=[a, b]) for a, b in [(mkf('L1'), mkf('L2sq')), (mkf('L2'), mkf('Huber', (1, 2))),
                                                               (mkf('Huber', 1), mkf('Quad', 0, 1, v=[2] * n))]] + leaves[:4]
@@ -339,6 +383,92 @@ def driver_program(arg):
         if g is not None:
             pts.append((q(x), xx, g))
     lipschitz(B, pts, res, 'driver', sp, f, kind + str(N))
+    linear_flag(B, None, res, 'driver', sp, f, kind + str(N), pts=(q(xs[0]), q(xs[1])))
+    return res
+
+
+def derived_recipes():
+    """(name, builder) -> (space, base functional, points, translations) for bases outside the catalogue
+    (functionals on the scalar field, Rosenbrock, KL cross entropy) and one linear base inside it."""
+    import odl
+    S = fu.S
+    R = odl.RealNumbers()
+    X = odl.rn(3)
+    return [('IdentityFunctional', lambda: (R, S.IdentityFunctional(R), [1.5, -2.0, 0.25], [0.5, -1.0])),
+            ('ScalingFunctional', lambda: (R, S.ScalingFunctional(R, 3.0), [1.5, -2.0, 0.25], [0.5, -1.0])),
+            ('QuadraticForm(vector)', lambda: (X, S.QuadraticForm(vector=X.element([1, -0.5, 2])),
+                                               [X.element([1, 2, -1]), X.element([0.5, 0, 3])], [X.element([1, 1, -0.5])])),
+            ('RosenbrockFunctional', lambda: (X, S.RosenbrockFunctional(X, scale=2.0),
+                                              [X.element([1, 2, -1]), X.element([0.5, 0, 3])], [X.element([1, 1, -0.5])])),
+            ('KullbackLeiblerCrossEntropy', lambda: (X, S.KullbackLeiblerCrossEntropy(X, prior=X.element([1, 2, 0.5])),
+                                                     [X.element([4, 5, 6]), X.element([3, 2.5, 7])],
+                                                     [X.element([1, 1, -0.5])]))]
+
+
+def derived_program(arg):
+    """Derived functionals "take the documented values": a relation between the derived functional and the BASE
+    functional evaluated at the transformed argument (both observed), for bases the specification has no values for.
+    Also the is_linear flag against observed additivity."""
+    idx, seed = arg
+    name, mk = derived_recipes()[idx]
+    res = _new_res()
+    X, f, xs, ts = mk()
+    res['classes'] |= {type(f).__name__}
+    sigd = {'leaf': name, 'ops': name, 'space': 'field' if not hasattr(X, 'shape') or X.shape == () else 'rn'}
+
+    def emit(rule, lhs, rhs, flag_of=None, **info):
+        res['counts'].append(([name, rule, str(info)], True))
+        det = {'stage': 'derived', 'recipe': idx, 'name': name, 'rule': rule, 'observed': dict(info, derived=lhs, documented=rhs),
+               'sp': {'kind': 'opaque', 'm': 1, 'n': 1, 'W': []}, 'f': mkf(name)}
+        if abs(lhs - rhs) > SLACK * max(1.0, abs(lhs), abs(rhs)):
+            res['viol'].append((dict(sigd, clause='value', rule=rule), det))
+        ev = fu.rel_event('value', 'eq', lhs, rhs)
+        if ev is not None:
+            res['events'].append((ev, det))
+    g = fu.S.L2NormSquared(X) if hasattr(X, 'shape') and X.shape != () else None
+    for t in ts:
+        for s in (2.0, -0.5):
+            progs = [('Translate', f.translated(t), lambda x: f(x - t)),
+                     ('ArgScale', f * s, lambda x: f(s * x)),
+                     ('LScale', s * f, lambda x: s * f(x)),
+                     ('AddConst', f + 3.0, lambda x: f(x) + 3.0),
+                     ('ArgScale(Translate)', f.translated(t) * s, lambda x: f(s * x - t)),
+                     ('Translate(ArgScale)', (f * s).translated(t), lambda x: f(s * (x - t))),
+                     ('LScale(Translate)', s * f.translated(t), lambda x: s * f(x - t)),
+                     ('ArgScale(ArgScale(Translate))', (f.translated(t) * s) * s, lambda x: f(s * s * x - t)),
+                     ('ArgScale(AddConst)', (f + 3.0) * s, lambda x: f(s * x) + 3.0)]
+            if g is not None:
+                progs += [('Sum', f + g, lambda x: f(x) + g(x)),
+                          ('ArgScale(Sum(Translate))', (f.translated(t) + g) * s, lambda x: f(s * x - t) + g(s * x)),
+                          ('Prod(Translate)', fu.S.FunctionalProduct(f.translated(t), g), lambda x: f(x - t) * g(x))]
+            for rule, D, doc in progs:
+                for x in xs:
+                    try:
+                        lhs, rhs = float(D(x)), float(doc(x))
+                    except Exception as e:
+                        res['viol'].append((dict(sigd, clause='call-raises', rule=rule, error=type(e).__name__),
+                                            {'stage': 'derived', 'recipe': idx, 'error': str(e)[:200]}))
+                        break
+                    if math.isfinite(lhs) and math.isfinite(rhs):
+                        emit(rule, lhs, rhs, x=str(x), t=str(t), s=s)
+                # the flag that redirects arithmetic
+                try:
+                    flag = bool(D.is_linear)
+                except Exception:
+                    flag = False
+                if flag:
+                    x, y = xs[0], xs[1]
+                    v = [float(D(z)) for z in (x, y, x + y, 2 * x, 0 * x)]
+                    res['counts'].append(([name, rule, 'is_linear'], True))
+                    det = {'stage': 'derived', 'recipe': idx, 'name': name, 'rule': rule, 'sp': {'kind': 'opaque', 'm': 1, 'n': 1, 'W': []},
+                           'f': mkf(name), 'observed': {'is_linear': True, 'values': v}}
+                    tol = SLACK * max(1.0, max(abs(z) for z in v))
+                    if abs(v[2] - v[0] - v[1]) > tol or abs(v[3] - 2 * v[0]) > tol or abs(v[4]) > tol:
+                        res['viol'].append((dict(sigd, clause='is_linear-refuted-by-observed-values', rule=rule), det))
+                    q = [fu.fixq(z) for z in v]
+                    if all(z is not None for z in q):
+                        res['events'].append(({'k': 'lin', 'flag': 1, 'opaque': 1, 'fxq': q[0], 'fyq': q[1], 'fxyq': q[2],
+                                               'f2xq': q[3], 'f0q': q[4], 'fin': 1, 'slackq': fu.REL_SLACKQ}, det))
     return res
 
 
@@ -464,6 +594,8 @@ def run(ctx):
             absorb(o)
         for o in pool.imap(special_program, [(i, ctx.seed) for i in range(6)]):
             absorb(o)
+        for o in pool.imap(derived_program, [(i, ctx.seed) for i in range(len(derived_recipes()))]):
+            absorb(o)
     stage['replay_and_driver'] = round(time.time() - t0 - stage['tlc_model_export'], 1)
     ctx.traces += tot['n']
     ctx.extra['programs_without_gradient'] = tot['nograd']
@@ -482,6 +614,9 @@ def run(ctx):
             cl = cl.replace('(q)', '')
             if det['stage'] == 'special':
                 cl = 'moreau-envelope-gradient' if det.get('kind') == 'moreau-envelope' else cl
+            if det['stage'] == 'derived':
+                fu.report(ctx, {'leaf': det['name'], 'ops': det['name'], 'space': 'opaque', 'rule': det['rule'], 'clause': cl}, d)
+                continue
             fu.report(ctx, fu.signature(det['sp'], det['f'], cl), d)
     ctx.extra['trace_events_validated_by_tlc'] = sink.n
     ctx.extra['trace_events_by_kind'] = sink.kinds
@@ -494,6 +629,13 @@ def run(ctx):
 def replay(body):
     d = body['detail']
     clause = body['signature']['clause']
+    if d['stage'].endswith('derived'):
+        res = derived_program((d['recipe'], body.get('seed', 0)))
+        hit = [s for s, _ in res['viol'] if s['clause'] == clause and s.get('rule') == body['signature'].get('rule')]
+        for s, dd in hit[:3]:
+            print('observed :', s['clause'], s['rule'], dd.get('observed'))
+        print('REPRODUCED' if hit else 'NOT-REPRODUCED')
+        return 1 if hit else 0
     if d['stage'].endswith('special'):
         res = special_program((d['recipe'], body.get('seed', 0)))
         bad = bool(res['viol'])
@@ -511,7 +653,10 @@ def replay(body):
         return 1 if clause == 'construction-raises' else 0
     res = _new_res()
     N = sp['m'] * sp['n']
-    if clause == 'lipschitz-bound' or d.get('kind') == 'lip':
+    if clause.startswith('is_linear'):
+        rec = {'linpts': [d['x'], d['y']], 'linref': clause.endswith('specification')}
+        linear_flag(B, rec, res, 'replay', sp, f, 'replay')
+    elif clause == 'lipschitz-bound' or d.get('kind') == 'lip':
         pts = []
         for xq in (d['x'], d['y']):
             x = B.el(fu.frv(xq))
